@@ -193,6 +193,18 @@ def token_cases(draw):
         heads = ["ZOPF", "ZOPI", "ZOPT", "ZOPV", "ZOPN (", "ZOPN ZNONE ("] + ([] if strict else ["ZOPS"])
         for _ in range(draw(st.integers(1, 5))):
             out.append("%s %s ;" % (draw(st.sampled_from(heads)), draw(st.sampled_from(tails))))
+    if draw(st.integers(0, 2)) == 0:
+        # histories use -> identical (benign) redefinition -> use over macros that reach themselves through other macros: the
+        # redefinition changes nothing, recursion stays suppressed exactly as before it (6.10.3p2, 6.10.3.4p2)
+        rdefs = {"ZRA": "#define ZRA ZRB", "ZRB": "#define ZRB ZRA", "ZRSTEP": "#define ZRSTEP 1", "ZRLV": "#define ZRLV (ZRSTEP + ZRLV)",
+                 "ZRF": "#define ZRF(x) ZRG(x) +", "ZRG": "#define ZRG(x) ZRF(x) x", "ZRS": "#define ZRS ZRS ZRA"}
+        out.extend(rdefs.values())
+        ruses = ["ZRA ;", "ZRB ;", "ZRLV ;", "ZRF(1) ;", "ZRG(ZRA) ;", "ident ;", "ZRS ;", "ZRLV ZRLV ;", "ZRF(ZRLV) ;", "ZRSTEP ;"]
+        for _ in range(draw(st.integers(2, 8))):
+            if draw(st.integers(0, 2)) == 0:
+                out.append(rdefs[draw(st.sampled_from(sorted(rdefs)))])
+            else:
+                out.append(draw(st.sampled_from(ruses)))
     return "\n".join(out) + "\n"
 
 
